@@ -46,7 +46,7 @@ func runC05(p *Prog, r *Result) {
 	r.Rule("R05c", "printer queue: flushComments writes every queued comment before emptying; a set-aside queue is restored on every path; no in-place truncation while a saved copy is live", 3)
 	r.Rule("R05d", "a function that moves accComs into a node it may not return restores them on that exit (or every caller reports an error)", 1)
 	r.Rule("R05e", "a node's comment field is plainly overwritten only when it is provably still empty (fresh node, first store) or its old contents move in the same statement", 12)
-	r.Rule("R05f", "under Minify, comment text is written only under the shebang test and the first-line test, and nothing is queued", 3)
+	r.Rule("R05f", "under Minify, comment text is written only under the shebang test and the first-line test, nothing is queued, and every direct write of comment text elsewhere in the printer is under !minify", 4)
 
 	checkCommentSinks(p, r, si)
 	checkAccComs(p, r, si)
@@ -442,6 +442,16 @@ func checkAccComs(p *Prog, r *Result, si *syntaxInfo) {
 								// returned onwards by a wrapper that is itself in the set
 								if id, isID := s.Lhs[idx].(*ast.Ident); isID && id.Name != "_" {
 									ok2 = returnsLocal(info, fd, info.ObjectOf(id))
+									if ok2 {
+										// … and on every path: a return that hands back something else in that position drops the
+										// comments, unless an error was reported on the way
+										if where := returnDropsLocal(p, si.pkg, fd, s, info.ObjectOf(id), idx); where != "" {
+											r.Bad("R05b", fmt.Sprintf("%s#returns result %d of %s on every path", funcKey("syntax", fd), idx, fo.Name()), s.Pos(),
+												fmt.Sprintf("the comments %s cut off the accumulator are held in `%s`, and the return at %s hands back something else without an error having been reported: on that path they are lost", fo.Name(), id.Name, where))
+										} else {
+											r.OK("R05b", fmt.Sprintf("%s#returns result %d of %s on every path", funcKey("syntax", fd), idx, fo.Name()), s.Pos(), "every return after the call hands the comments back, or follows an error report")
+										}
+									}
 								}
 							}
 							r.Check(ok2, "R05b", fmt.Sprintf("%s#stores result %d of %s", funcKey("syntax", fd), idx, fo.Name()), s.Pos(), "stored in a node's comment field (or returned onwards)",
@@ -1182,6 +1192,55 @@ func checkCommentOverwrites(p *Prog, r *Result, si *syntaxInfo) {
 func checkMinifyGate(p *Prog, r *Result, si *syntaxInfo) {
 	pkg := si.pkg
 	info := pkg.TypesInfo
+	// Comment text is written in three kinds of places: flushComments (the queue, which stays empty under Minify), the
+	// Minify branch of comments() (judged below), and special cases elsewhere in the printer that write a comment they
+	// hold themselves — each of those must sit under a test that Minify is off.
+	for _, pfd := range p.AllFuncDecls("syntax") {
+		if recvTypeName(pfd) != "Printer" || pfd.Name.Name == "flushComments" || pfd.Name.Name == "comments" {
+			continue
+		}
+		var pg *FGraph
+		seen := map[string]int{}
+		inspectNoLit(pfd.Body, func(n ast.Node) bool {
+			c, ok := n.(*ast.CallExpr)
+			if !ok {
+				return true
+			}
+			if tv, ok := info.Types[c.Fun]; ok && tv.IsType() {
+				return true
+			}
+			text := false
+			for _, a := range c.Args {
+				ast.Inspect(a, func(z ast.Node) bool {
+					if s2, ok := z.(*ast.SelectorExpr); ok && s2.Sel.Name == "Text" {
+						if nt := namedOf(derefType(info.TypeOf(s2.X))); nt != nil && nt.Obj().Name() == "Comment" && selectorField(info, s2) != nil {
+							text = true
+						}
+					}
+					return true
+				})
+			}
+			if !text {
+				return true
+			}
+			if pg == nil {
+				pg = NewFGraph(info, pfd.Body, nil)
+			}
+			blk := blockContaining(pg, c)
+			key := funcKey("syntax", pfd) + "#comment text written outside the queue is under !minify"
+			seen[key]++
+			if seen[key] > 1 {
+				key += fmt.Sprintf("#%d", seen[key])
+			}
+			gated := blk != nil && underEdges(pg, blk, func(e *FEdge) bool {
+				fv := selectorField(info, e.Cond)
+				return fv != nil && fv.Name() == "minify" && !e.Pol
+			})
+			r.Check(gated, "R05f", key, c.Pos(), "only reached when p.minify is false",
+				"the printer writes a comment's text directly (not through the queue) on a path where Minify may be on: a comment other than a first-line shebang survives minification")
+			return true
+		})
+	}
 	fd := p.FuncDecl("syntax", "Printer.comments")
 	if fd == nil {
 		r.Fatalf("anchor Printer.comments not found")
@@ -1298,6 +1357,10 @@ var c05MustSinkExceptions = map[string]string{
 }
 
 var c05Controls = []Control{
+	{Name: "minify-keeps-inline-backquote-comment", Rule: "R05f", WantKey: "cmdSubst#comment text written outside the queue", File: "syntax/printer.go",
+		Mutate: ctlReplaceAnywhere("case cs.Backquotes && len(cs.Stmts) == 0 && !p.minify &&", "case cs.Backquotes && len(cs.Stmts) == 0 &&")},
+	{Name: "empty-list-drops-its-comments", Rule: "R05b", WantKey: "followStmts#returns result 1 of stmtList on every path", File: "syntax/parser.go",
+		Mutate: ctlReplaceAnywhere("\t\t\treturn nil, last // allow an empty list, which may still hold comments\n", "\t\t\treturn nil, nil // allow an empty list\n")},
 	{Name: "binary-same-line-drops-rhs-comments", Rule: "R05g", WantKey: "command#cmd.Y.Comments", File: "syntax/printer.go",
 		Mutate: ctlReplaceAnywhere("\t\t\t// Such as the one in \"foo | cat <<EOF # comment\".\n\t\t\tp.comments(cmd.Y.Comments...)\n", "")},
 	{Name: "else-tail-comments-not-queued", Rule: "R05g", WantKey: "ifClause#el.Last", File: "syntax/printer.go",
@@ -1321,3 +1384,49 @@ var c05Controls = []Control{
 }
 
 var _ *packages.Package
+
+
+// returnDropsLocal: position of a return statement, reachable from the assignment without passing a call that always
+// reports an error, whose result at idx is not the local; "" if there is none.
+func returnDropsLocal(p *Prog, pkg *packages.Package, fd *ast.FuncDecl, as *ast.AssignStmt, obj types.Object, idx int) string {
+	info := pkg.TypesInfo
+	fg := newFuncGraphs(pkg)
+	errPass := lookupFunc(pkg, "Parser.errPass")
+	if errPass == nil {
+		return "(errPass not found)"
+	}
+	me := computeMustError(fg, errPass)
+	g := NewFGraph(info, fd.Body, nil)
+	blk, i := g.BlockOf(as)
+	if blk == nil {
+		return "(assignment not found in the flow graph)"
+	}
+	bad := ""
+	seen := map[*FBlock]bool{}
+	var walk func(b *FBlock, from int)
+	walk = func(b *FBlock, from int) {
+		for _, nd := range b.Nodes[from:] {
+			if nodeCallsAny(info, nd, me) {
+				return
+			}
+			if rs, ok := nd.(*ast.ReturnStmt); ok {
+				if idx < len(rs.Results) {
+					if id, ok := ast.Unparen(rs.Results[idx]).(*ast.Ident); !ok || info.ObjectOf(id) != obj {
+						if bad == "" {
+							bad = p.Position(rs.Pos())
+						}
+					}
+				}
+				return
+			}
+		}
+		for _, e := range b.Succs {
+			if !seen[e.To] {
+				seen[e.To] = true
+				walk(e.To, 0)
+			}
+		}
+	}
+	walk(blk, i+1)
+	return bad
+}
